@@ -708,28 +708,6 @@ Qed.
 
 (** non-vacuity: a file with an extension, a point cloud (extension record, bounds, limits, pose,
     strings with markup and the CDATA end marker) and a spherical image satisfies the hypotheses *)
-Definition xg_f (bits : N) (text : list N) : f64t := mkF64 bits text.
-Definition xg_example : file_meta :=
-  let one := xg_f 0x3ff0000000000000 (B "1") in
-  let half := xg_f 0x3fe0000000000000 (B "0.5") in
-  let ninf := xg_f 0xfff0000000000000 (B "-inf") in
-  mkFileMeta
-    (mkRoot STD_FORMAT_NAME (B "{guid}") 1 0 (Some (B "lib <&>")) (Some (mkDateTime half true)) (Some (B "a]]>b")))
-    [mkExtension (B "nor") (B "http://x/?a=1&b=""2""")]
-    [mkPointCloud (Some (B "pc]]>")) 48 2
-       [mkRecord CartesianX (DDouble None (Some one)); mkRecord CartesianY (DSingle (Some (mkF32 0x3f800000 (B "1"))) None);
-        mkRecord CartesianZ (DScaledInteger (-5) 5 half ninf); mkRecord Intensity (DInteger 0 255);
-        mkRecord (Unknown (B "nor") (B "normalX")) (DInteger (-9223372036854775808) 9223372036854775807)]
-       (Some [B "g1"; []]) (Some []) None
-       (Some (mkCb (Some ninf) (Some one) None None None None)) None
-       (Some (mkIb (Some (-1)%Z) None None None None None))
-       (Some (mkIl (Some (LInteger 0)) (Some (LInteger 255)))) None
-       (Some (mkTransform one half half half ninf one half)) (Some (mkDateTime one false)) None
-       (Some (B " ")) None None None None None (Some half) None None]
-    [mkImage (Some (B "img")) None
-       (Some (PSpherical (mkSphImg (mkImageBlob (mkBlob 1024 10) Jpeg) (Some (mkBlob 2048 3)) 4294967295 0 half one)))
-       None None (Some []) None None None None None].
-
 Example gen_is_render_applies :
   writer_meta_ok xg_example = true /\ exists bs, gen_root xg_example = Ok bs /\ bs = render writer_choices (tree_of xg_example).
 Proof.
@@ -737,5 +715,10 @@ Proof.
   destruct (gen_root xg_example) as [bs| |] eqn:E; try (vm_compute in E; discriminate).
   exists bs. split; [reflexivity|]. apply gen_is_render; [vm_compute; reflexivity|exact E].
 Qed.
+
+(** the digest the extracted code must reproduce (tools/props/c04.py, case XGSELF) *)
+Example xg_example_digest :
+  match gen_root xg_example with Ok b => xg_digest b | _ => (0, 0) end = (3141, 2242033640).
+Proof. vm_compute. reflexivity. Qed.
 
 Print Assumptions gen_is_render.
